@@ -1,7 +1,7 @@
 (* Property C08 -- non-linear and total least-squares fits obey the implicit-function rule.  Theorems only. *)
 From Coq Require Import ZArith QArith Reals List Bool.
 From Interval Require Import Interval.Interval Real.Xreal Real.Xreal_derive.
-From PV Require Import Base.QAux Base.RI Base.Expr Lin.Mat Fit.Implicit.
+From PV Require Import Base.QAux Base.RI Base.Expr Base.ExprFold Base.Dyadic Base.DyadicR Lin.Mat Fit.Implicit Fit.ImplicitSound.
 Import ListNotations.
 
 (* the symbolic partial derivative used for gradient, Hessian and mixed derivatives of chi^2 IS the real derivative:
@@ -29,6 +29,30 @@ Theorem implicit_function_rule :
   (dotv h (mvec S d) + dotv b d == 0)%Q.
 Proof. exact implicit_function_rule_row. Qed.
 
+(* the folded derivative used by the verdicts (0 * e folded to 0) is the same real derivative wherever the interval certificate
+   guardsI holds, its interval evaluation encloses it, and the certificate is inherited (second derivatives: apply twice) *)
+Theorem certified_folded_derivative :
+  forall (l : list Q) e v, guardsI (qenvI l) e = true ->
+  Xderive_pt (fun t => evalX (updX (qenvR l) v t) e) (Xreal (qenvR l v)) (evalX (renv (qenvR l)) (Dfold e v))
+  /\ contains (I.convert (evalI (qenvI l) (Dfold e v))) (evalX (renv (qenvR l)) (Dfold e v))
+  /\ guardsR (qenvR l) (Dfold e v).
+Proof. exact certified_derivative. Qed.
+
+(* interval bounds read as dyadic numbers enclose the real value *)
+Theorem interval_bounds_as_dyadics :
+  forall i a b r, i2d i = Some (a, b) -> contains (I.convert i) (Xreal r) -> (dR a <= r <= dR b)%R.
+Proof. exact i2d_correct. Qed.
+
+(* the decision taken on every differentiated equation: real coefficients inside their enclosures, real arguments inside theirs,
+   a positive decision  ==>  |sum_j c_j x_j| <= rt (sum_j |c_j x_j| + scale)  *)
+Theorem differentiated_equation_decision_is_sound :
+  forall cs xs crs xrs rt scale res,
+  Forall2 encl cs crs -> Forall2 enclx xs xrs -> (0 <= dR rt)%R ->
+  dform cs xs dzero dzero dzero = Some res ->
+  dleb (fst res) (dmul rt (dadd (snd res) scale)) = true ->
+  (Rabs (rsum crs xrs) <= dR rt * (rasum crs xrs + dR scale))%R.
+Proof. exact form_decision_sound. Qed.
+
 (* Non-vacuity: chi^2 of y = p0 exp(-p1 x) on two points, its symbolic gradient is not trivial and evaluates to a finite interval *)
 Example c08_example :
   let fe := EMul (EV 0) (EExp (ENeg (EMul (EV 1) (EV 2)))) in
@@ -39,3 +63,6 @@ Proof. split; [vm_compute; reflexivity | vm_compute; discriminate]. Qed.
 Print Assumptions symbolic_derivative_is_the_real_derivative.
 Print Assumptions interval_evaluation_encloses_the_real_value.
 Print Assumptions implicit_function_rule.
+Print Assumptions certified_folded_derivative.
+Print Assumptions interval_bounds_as_dyadics.
+Print Assumptions differentiated_equation_decision_is_sound.
